@@ -192,6 +192,42 @@ Theorem C18_subgraph_keep_spec : forall g nodes edges, keep_wf g nodes edges ->
 Proof. exact subgraph_keep_spec. Qed.
 Print Assumptions C18_subgraph_keep_spec.
 
+(* (group hM) SubgraphKeep on EVERY request, well-formed or not (what the code does outside the property's
+   quantifier, which ranges over requests that name a subgraph: keep_wf).  pos nodes x = oldToNew[x], the
+   position of x in the node list, 0 for an id that is not kept (Go's zero value for a missing map key).
+   (1) the model equals the closed form keep_any; (2) the call panics iff a listed node is outside the graph
+   or listed twice, or a requested edge (u, j) does not exist in g, or edges are requested while no node is
+   kept; (3) otherwise NodeMap is the node list and new node i carries, in request order, exactly the
+   requests e with pos (source e) = i, with new target pos (old target); (4) pos x is the position of a kept
+   x and 0 for every other id - so a request whose source is not kept is attached to new node 0 (where
+   EdgeMap reports it as an edge of nodes[0]), and an edge into a node that is not kept becomes an edge into
+   new node 0.  C18_check_ok_sound, op 7, states the accepted observation through keep_any. *)
+From MM Require Import Proofs.SubgraphAny.
+Theorem C18_subgraph_keep_any_request :
+  (forall g nodes edges, subgraph_keep g nodes edges = keep_any g nodes edges) /\
+  (forall g nodes edges, subgraph_keep g nodes edges = None <->
+     ((exists v, In v nodes /\ (g_n g <= v)%N) \/ ~ NoDup nodes) \/
+     (exists e, In e edges /\ edge_exists g e = false) \/
+     (nodes = [] /\ edges <> [])) /\
+  (forall g nodes edges s, subgraph_keep g nodes edges = Some s ->
+     sg_nodemap s = nodes /\ length s = length nodes /\
+     forall i nd, nth_error s i = Some nd ->
+       sg_old nd = nth i nodes 0%N /\
+       sg_oldedges nd = map snd (filter (fun e => (pos nodes (fst e) =? i)%nat) edges) /\
+       sg_out nd = map (fun e => N.of_nat (pos nodes (keep_tgt g e))) (filter (fun e => (pos nodes (fst e) =? i)%nat) edges)) /\
+  (forall nodes x, (In x nodes -> nth_error nodes (pos nodes x) = Some x) /\ (~ In x nodes -> pos nodes x = 0%nat)).
+Proof. exact subgraph_keep_any_request. Qed.
+Print Assumptions C18_subgraph_keep_any_request.
+Example C18_ex_keep_any_request :
+  let g := [[1; 2]; [2]; [0]]%N in
+  (* keep nodes 2 and 1; request edge 0 of node 0 (0 -> 1, source not kept) and edge 0 of node 1 (1 -> 2):
+     the first is attached to new node 0 (= old node 2) as an edge to new node 1, the second to new node 1 *)
+  option_map (map (fun nd => (sg_old nd, sg_out nd, sg_oldedges nd))) (subgraph_keep g [2; 1] [(0, 0); (1, 0)])%N
+    = Some [(2, [1], [0]); (1, [0], [0])]%N /\
+  (* a requested edge that does not exist: panic; edges requested with no node kept: panic *)
+  subgraph_keep g [2; 1]%N [(1, 1)]%N = None /\ subgraph_keep g [] [(0, 0)]%N = None /\ subgraph_keep g [] [] = Some [].
+Proof. vm_compute. auto. Qed.
+
 (* Remove: NodeMap enumerates exactly the surviving nodes in ascending order; EdgeMap of a node
    enumerates exactly its surviving edge indices (target kept, edge not removed), ascending;
    every new edge translated back is the old edge. *)
@@ -385,7 +421,8 @@ Print Assumptions C18_check_meaning_traversals.
    float64 bit patterns (wadj_decodes).
    ops 7, 8.  In general the observation is the model's value (status 2 and no rows exactly when the model
    panics, else status 0 and the rows NodeMap / Out / EdgeMap are the rows of the model's result: sg_matches,
-   sg_row).  SubgraphKeep on a well-formed request (no negative number; keep_wf) and SubgraphRemove on
+   sg_row); for SubgraphKeep the model's value on EVERY request is given in the closed form keep_any, read by
+   C18_subgraph_keep_any_request.  SubgraphKeep on a well-formed request (no negative number; keep_wf) and SubgraphRemove on
    EVERY request satisfy the specification: Keep returns the requested subgraph (keep_spec_concl = the
    conclusion of C18_subgraph_keep_spec), Remove returns the surviving nodes and edges in ascending order
    (remove_spec_concl = the conclusion of C18_subgraph_remove_spec) or panics exactly when more distinct
@@ -432,7 +469,7 @@ Theorem C18_check_meaning_graphops : forall rest,
      let nodesN := NsZ nodes in
      let edgesN := map (fun e => (Z.to_N (fst e), Z.to_N (snd e))) edges in
      let neg := existsb (fun x => x <? 0) (nodes ++ eflat) in
-     sg_matches (if neg then None else subgraph_keep g nodesN edgesN) status obs /\
+     sg_matches (if neg then None else keep_any g nodesN edgesN) status obs /\
      (neg = false -> keep_wf g nodesN edgesN ->
         status = 0 /\ exists s, Forall2 sg_row s obs /\ keep_spec_concl g nodesN edgesN s) /\
      (neg = false -> (exists v, In v nodesN /\ (g_n g <= v)%N) \/ ~ NoDup nodesN -> status = 2)) /\
